@@ -25,6 +25,35 @@ CHECKS = {
    technique="model-based (state-machine) property testing: generated store/retrieve histories compared with a HashMap model after every operation",
    text="Op histories up to 400 ops on near-colliding key universes; every observable retrieve compared with the model after every op.",
    note="Model rule: accept iff no entry or old.depth <= new.depth."),
+
+ "C04": dict(level="exploration", design="DESIGN.md §4 C04",
+   technique="property-based testing: generated position-command histories through the real command handler vs reference model position (round trip through FEN text and UCI move lists)",
+   text="Histories of 1..3 position commands (startpos or reference-written six-field FEN with counters a real game can reach, plus reference-legal move lists up to 250 plies with castles, ep and under-promotions); the engine's board after every command must equal the reference position.",
+   note="Trusted: refchess; hooks verif_handle_command/verif_board only expose the private handler and board."),
+ "C05": dict(level="exploration", design="DESIGN.md §4 C05, §3.3",
+   technique="differential property-based testing: engine search vs definitional plain-minimax reference (no pruning/ordering/caching) over an independent rules model, exact integer comparison, plus audit of every cached table entry as a (depth,bound,score) claim",
+   text="Generated small positions, iterative searches depth 1..3 and fixed-depth searches 4..5 on a fresh engine; score must equal the reference minimax value exactly (won/lost as classes), the move must attain it, and every table entry left behind must be a true claim. Leaf values come from definitional quiescence minimax when that tree is finite and from an independent alpha-beta reference (cross-checked against the definitional one) otherwise.",
+   note="Trusted: refchess, the engine's evaluation as leaf scorer (C14), the soundness argument for the alpha-beta leaf reference in DESIGN.md §3.3. Cases over the reference node cap or with deeper-entry reuse are excluded and counted."),
+ "C06": dict(level="fault_enumeration", design="DESIGN.md §4 C06",
+   technique="fault-point enumeration inside a property-based test: the deadline is a generated/enumerated node count (hook), every expiry point of small searches is tried; oracle = reference minimax + table-claim audit + history snapshot",
+   text="For generated positions every node count 1..T-1 at which the deadline can fall is enumerated (sampled for larger searches), alone and in sequences of 1..3 interruptions; after each, the history record must be unchanged, every table entry left behind must be a true claim, and a completed follow-up search must report the reference value.",
+   note="Deadline expressed in nodes via the SearchTimer hook (should_stop answers nodes >= limit). Reference as in C05."),
+ "C07": dict(level="fault_enumeration", design="DESIGN.md §4 C07",
+   technique="fault-point enumeration/sampling of deadline node counts with an invariant on instrumentation counters (observation latency, work after observation), incl. constructed explosive positions",
+   text="Node-count deadlines enumerated for small searches and sampled log-uniformly up to 300k (3M thorough) on middlegames and explosive quiescence shapes; the first poll seeing the expiry must come within 4096 nodes, at most 256 nodes may follow, and the search must return (hard cap turns a runaway into a caught panic).",
+   note="Node-count formulation via hook; wall-clock figures from the real binary are recorded as information only."),
+ "C11": dict(level="exploration", design="DESIGN.md §4 C11",
+   technique="property-based testing: metamorphic relations on the hash (transposing move orders and FEN-vs-play must be equal; single-component flips must differ) and population collision check, under several fresh key draws",
+   text="Commuting move-order pairs verified equal by the reference, positions by FEN vs by play with different counters, single-feature flips through the public Board API, and pools of >=10^4 positions per worker; each under 8 (64 thorough) independent ZobristTable::new() draws.",
+   note="Keys come from thread_rng and cannot be seeded; inequality verdicts carry a 2^-64 coincidence risk; failing pairs are re-checked under 8 fresh draws."),
+ "C12": dict(level="exploration", design="DESIGN.md §4 C12",
+   technique="property-based testing: metamorphic independence (opponent clock, token order) and bound check on the budget produced by the real go parser (hook)",
+   text="Millions of generated clock five-tuples from a boundary-rich mixture, all 24 token orders, either side to move; the budget handed to the search must not depend on the opponent's values or the order and must fit strictly inside the mover's remaining time.",
+   note="Hook verif_go_budget records (depth, time limit) just before the search and returns."),
+ "C16": dict(level="exploration", design="DESIGN.md §4 C16",
+   technique="property-based testing of the real process: generated command scripts over stdin, stdout parsed against a line-by-line transcript grammar (reference model of the protocol), exit status checked",
+   text="Generated scripts of all line kinds incl. unknown/blank/UTF-8 lines, ending in quit (with trailing lines) or end of input (with/without final newline); stdout must match the slot grammar exactly and the process must exit 0.",
+   note="Termination judged with a 5 s allowance on an idle process; a go that never answers is inconclusive (exit 2)."),
 }
 
 NOT_YET = {}
